@@ -34,7 +34,7 @@ warnings.simplefilter("ignore")
 logging.disable(logging.CRITICAL)
 getcontext().prec = 60
 
-IMPORTS = "From Coq Require Import QArith.\nFrom V Require Import Model.Metrics Model.MetricsRun."
+IMPORTS = "From Coq Require Import QArith PrimFloat.\nFrom V Require Import Model.Metrics Model.MetricsRun."
 MN = 1e-3                       # BaselineMetrics._min_denominator
 TOL = Fr(1, 10**9)
 COLS = ["sum", "mean", "variance", "std", "cvstd", "sum_squared", "median", "MAD_scaled", "iqr"]
@@ -64,12 +64,14 @@ def gen_series(rng, k, quick=True):
     kinds = ["usage", "usage", "usage", "constant_obs", "zero_mean", "tiny_mean", "negative", "perfect", "ties",
              "alt_resid", "trend_resid", "const_resid", "flat_iqr", "small_resid_neg", "small_resid_zero"]
     kind = kinds[k % len(kinds)] if k < 3 * len(kinds) else rng.choice(kinds)
-    lens = [2, 2, 3, 3, 4, 5, 6, 8, 12, 20, 30, 50, 80, 120, 365]
+    lens = [2, 2, 3, 3, 4, 5, 6, 8, 12, 20, 30, 50, 80, 120]
     n = rng.choice(lens)
     r = rng.random()
-    if r < 0.012:
+    if r < 0.01:
         n = rng.choice([500, 1000, 2000])
-    elif r < 0.02:
+    elif r < 0.035:
+        n = 365
+    elif r < 0.045:
         n = 1
     K = rng.choice([0, 1, 3, 6, 10])
     den = 2 ** K
@@ -448,17 +450,18 @@ def run_safe_divide(num, den, mn, as_numpy):
 # ------------------------------------------------------------------ Coq terms
 
 def obsv(x):
+    """implementation value -> xobs literal (binary64 written exactly as a hex float)"""
     if x is None:
-        return "ONone"
-    if x == "nan":
-        return "ONaN"
-    if x == "inf":
-        return "(OInf false)"
-    if x == "-inf":
-        return "(OInf true)"
+        return "XNone"
     if x == "raise":
-        return "ORaise"
-    return "(ONum %s)" % qlit(Fr(x))
+        return "XRaise"
+    if isinstance(x, str):
+        return "(XF %s)" % {"nan": "nan", "inf": "infinity", "-inf": "neg_infinity"}[x]
+    return "(XF %s)" % vlib.fhex(x)
+
+
+def flit(x):
+    return vlib.fhex(float(x))
 
 
 def coq_cell(c):
@@ -475,14 +478,12 @@ def coq_hrows(rows):
 
 def bcase_term(case, fields, k_mad):
     return ("{| bc_den := %d%%positive; bc_rows := %s; bc_p := %s; bc_mn := %s; bc_k := %s; bc_exp := %s |}" % (
-        case["den"], coq_rows(case["rows"]), zlit(case["p"]), qlit(Fr(MN)), qlit(Fr(k_mad)),
+        case["den"], coq_rows(case["rows"]), zlit(case["p"]), flit(MN), flit(k_mad),
         coq_list([obsv(fields[f]) for f in FIELDS])))
 
 
 def sd_term(num, den, mn, o):
-    t = {"raise": "SDRaise", "nan": "SDNaN", "inf": "(SDInf false)", "-inf": "(SDInf true)"}
-    ob = "SDNone" if o is None else t[o] if isinstance(o, str) else "(SDNum %s)" % qlit(Fr(o))
-    return "(%s, %s, %s, %s)" % (qlit(num), qlit(den), qlit(mn), ob)
+    return "(%s, %s, %s, %s)" % (flit(num), flit(den), flit(mn), obsv(o))
 
 
 def report_mismatch(run, stream, what_fn, term, case, obs):
@@ -507,7 +508,7 @@ def stream_safe_divide(run):
                 for npy in (False, True):
                     items.append((num, den, mn, npy))
     for _ in range(run.n(600, 20000)):
-        mn = rng.choice([Fr(1, 1024), Fr(MN), Fr(1, 8), Fr(0), Fr(-1, 4)])
+        mn = rng.choice([Fr(1, 1024), Fr(MN), Fr(MN), Fr(1, 8), Fr(0)])
         sc = rng.choice([Fr(1, 4096), Fr(1, 256), Fr(1), Fr(64)])
         items.append((rng.randint(-4096, 4096) * sc, rng.choice([0, 1, 1, 1]) * rng.randint(-4096, 4096) * sc, mn,
                       rng.random() < 0.5))
@@ -547,23 +548,80 @@ def stream_safe_divide(run):
                                   "impl": o, "model": run.coq_eval(IMPORTS, "", "safe_divide %s %s %s" % (qlit(num), qlit(den), qlit(mn)))[-300:]})
 
 
-def classify_series(case, T):
-    mn = Fr(MN)
-    return (case["kind"], min(len(case["rows"]), 400) // 40, den_class(T.mean_obs, mn), den_class(T.iqr_obs, mn),
-            T.mse > (10 * mn) ** 2, T.r2 is None, T.rho is None, T.ddof == 1)
+def gate_sig(acc, unsafe, call):
+    return {"defect": "poor-fit verdict differs from the statement", "call": call,
+            "cause": "ratio reported for a denominator that is not safely positive" if unsafe else "gate logic",
+            "verdict": "acceptable" if acc else "disqualified"}
+
+
+def unsafe_ratios(T, fields):
+    return [nm for nm, den in (("cvrmse_adj", T.mean_obs), ("pnrmse_adj", T.iqr_obs)) if den <= T.mn and fields[nm] is not None]
+
+
+def series_stats(T):
+    return {"mean": den_class(T.mean_obs, T.mn), "iqr": den_class(T.iqr_obs, T.mn), "floored": T.ddof == 1 and T.n - T.p < 1,
+            "rho": "undefined" if T.rho is None else "-1" if (T.rho[0] < 0 and T.rho[1] == 1) else
+            "+1" if (T.rho[0] > 0 and T.rho[1] == 1) else "regular"}
+
+
+# ------------------------------------------------------------------ worker pool (forked after the data objects exist)
+
+_POOL = [None]
+
+
+def pmap(fn, items, chunks=4):
+    import multiprocessing as mp
+    if len(items) < 8 or os.environ.get("C16_SERIAL"):
+        return [fn(x) for x in items]
+    if _POOL[0] is None:
+        _POOL[0] = mp.get_context("fork").Pool(int(os.environ.get("C16_PROCS", "10")))
+    return _POOL[0].map(fn, items, chunksize=max(1, len(items) // (10 * chunks)))
+
+
+# ------------------------------------------------------------------ baseline + gate
+
+def baseline_job(case):
+    """implementation + oracle + Coq terms for one generated series (runs in a worker)"""
+    import random
+    from opendsm.eemeter import HourlyModel
+    from opendsm.eemeter.models.hourly.settings import BaseHourlySettings
+    k_mad = mad_k()
+    rng = random.Random(case.get("seed", 0))
+    obs, bm = run_baseline(case)
+    pairs = finite_pairs(case)
+    out = {"npairs": len(pairs), "obs": obs if obs["kind"] != "ok" else {"kind": "ok"}}
+    if not pairs or obs["kind"] != "ok":
+        return out
+    fields = obs["fields"]
+    fails, T = oracle_baseline(pairs, case["p"], fields, k_mad)
+    out.update(fields=fields, fails=fails, stats=series_stats(T), term=bcase_term(case, fields, k_mad), gates=[])
+    rows_term = coq_hrows([(o, p, False) for o, p in case["rows"]])
+    thr = case.get("thresholds")
+    for j in range(1 if len(case["rows"]) > 150 or thr else 2):
+        if thr:
+            tcv, tpn = thr[j % len(thr)]
+        else:
+            cvt = abs(fields["cvrmse_adj"]) if isinstance(fields["cvrmse_adj"], float) else 1.0
+            pnt = abs(fields["pnrmse_adj"]) if isinstance(fields["pnrmse_adj"], float) else 1.0
+            tcv = rng.choice([1.4, 1.4, 0.5, cvt * 0.99, cvt * 1.01, -cvt * 0.5, 1e-6, 0.0, 1e9])
+            tpn = rng.choice([2.2, 2.2, 0.5, pnt * 0.99, pnt * 1.01, -pnt * 0.5, 1e-6, 0.0, 1e9])
+        hm = HourlyModel(settings=BaseHourlySettings(cvrmse_threshold=tcv, pnrmse_threshold=tpn))
+        hm.baseline_metrics = bm
+        acc = bool(hm._model_fit_is_acceptable())
+        want = true_gate(T, tcv, tpn)
+        gterm = ("{| gc_den := %d%%positive; gc_rows := %s; gc_p := %s; gc_mn := %s; gc_tcv := %s; gc_tpn := %s; "
+                 "gc_acceptable := %s |}" % (case["den"], rows_term, zlit(case["p"]), flit(MN), flit(tcv), flit(tpn), coq_bool(acc)))
+        out["gates"].append({"tcv": tcv, "tpn": tpn, "acc": acc, "want": want, "unsafe": unsafe_ratios(T, fields), "term": gterm})
+    return out
 
 
 def stream_baseline(run, cases):
     """BaselineMetrics on generated series + the hourly gate on the same metrics"""
-    from opendsm.eemeter import HourlyModel
-    from opendsm.eemeter.models.hourly.settings import BaseHourlySettings
-    k_mad = mad_k()
-    rng = run.rng
+    results = pmap(baseline_job, cases)
     small, long_, gates = [], [], []
-    for case in cases:
-        obs, bm = run_baseline(case)
-        pairs = finite_pairs(case)
-        if not pairs:
+    for case, res in zip(cases, results):
+        obs = res["obs"]
+        if not res["npairs"]:
             # nothing finite: outside the statement (length >= 2); the code cannot produce statistics
             run.count(vlib.sha(case), nontrivial=False)
             run.dist("baseline outcome", "no finite pair: " + (obs.get("cls") or "ok"))
@@ -571,55 +629,37 @@ def stream_baseline(run, cases):
         if obs["kind"] != "ok":
             run.count(vlib.sha(case), nontrivial=True)
             run.violation({"defect": "BaselineMetrics raised", "raised": obs["cls"]},
-                          "C16 BaselineMetrics raised %s on a series with %d finite pairs" % (obs["cls"], len(pairs)),
+                          "C16 BaselineMetrics raised %s on a series with %d finite pairs" % (obs["cls"], res["npairs"]),
                           case={"stream": "baseline", "case": case}, observation=obs, generator="c16.gen_series")
             continue
-        fields = obs["fields"]
-        fails, T = oracle_baseline(pairs, case["p"], fields, k_mad)
-        run.count(vlib.sha(case), nontrivial=len(pairs) >= 2)
+        fields, st = res["fields"], res["stats"]
+        run.count(vlib.sha(case), nontrivial=res["npairs"] >= 2)
         run.dist("series kind", case["kind"])
-        run.dist("finite pairs", "1" if len(pairs) == 1 else "2-9" if len(pairs) < 10 else "10-99" if len(pairs) < 100 else "100-2000")
-        run.dist("mean(observed) class", den_class(T.mean_obs, T.mn))
-        run.dist("iqr(observed) class", den_class(T.iqr_obs, T.mn))
-        run.dist("ddof floored", T.ddof == 1 and T.n - case["p"] < 1)
-        run.dist("autocorrelation", "undefined" if T.rho is None else "-1" if (T.rho[0] < 0 and T.rho[1] == 1) else
-                 "+1" if (T.rho[0] > 0 and T.rho[1] == 1) else "regular")
-        for sig, msg in fails:
+        np_ = res["npairs"]
+        run.dist("finite pairs", "1" if np_ == 1 else "2-9" if np_ < 10 else "10-99" if np_ < 100 else "100-2000")
+        run.dist("mean(observed) class", st["mean"])
+        run.dist("iqr(observed) class", st["iqr"])
+        run.dist("ddof floored", st["floored"])
+        run.dist("autocorrelation", st["rho"])
+        for sig, msg in res["fails"]:
             run.violation(dict(sig, call="BaselineMetrics"), "C16 BaselineMetrics: " + msg,
                           case={"stream": "baseline", "case": case}, observation=fields, generator="c16.gen_series")
-        if len(pairs) >= 2:
-            run.sample({"kind": case["kind"], "n_rows": len(case["rows"]), "finite_pairs": len(pairs), "num_model_params": case["p"],
+        if np_ >= 2:
+            run.sample({"kind": case["kind"], "n_rows": len(case["rows"]), "finite_pairs": np_, "num_model_params": case["p"],
                         "rmse": fields["rmse"], "cvrmse": fields["cvrmse"], "r_squared": fields["r_squared"], "n_prime": fields["n_prime"]})
-        term = bcase_term(case, fields, k_mad)
-        (long_ if len(case["rows"]) > 150 else small).append((term, case, fields))
-        # ---- the hourly gate on these metrics
-        for _ in range(2):
-            cvt = float(fields["cvrmse_adj"]) if isinstance(fields["cvrmse_adj"], float) else 1.0
-            pnt = float(fields["pnrmse_adj"]) if isinstance(fields["pnrmse_adj"], float) else 1.0
-            tcv = rng.choice([1.4, 0.5, abs(cvt) * 0.99, abs(cvt) * 1.01, -abs(cvt) * 0.5, 1e-6, 0.0, 1e9])
-            tpn = rng.choice([2.2, 0.5, abs(pnt) * 0.99, abs(pnt) * 1.01, -abs(pnt) * 0.5, 1e-6, 0.0, 1e9])
-            hm = HourlyModel(settings=BaseHourlySettings(cvrmse_threshold=tcv, pnrmse_threshold=tpn))
-            hm.baseline_metrics = bm
-            acc = bool(hm._model_fit_is_acceptable())
-            run.count(("gate", vlib.sha(case), tcv, tpn))
-            run.dist("gate verdict", "acceptable" if acc else "disqualified")
-            want = true_gate(T, tcv, tpn)
-            if acc != want:
-                unsafe = [nm for nm, den in (("cvrmse_adj", T.mean_obs), ("pnrmse_adj", T.iqr_obs))
-                          if den <= T.mn and fields[nm] is not None]
-                sig = {"defect": "poor-fit verdict differs from the statement", "call": "HourlyModel._model_fit_is_acceptable",
-                       "cause": "ratio reported for a denominator that is not safely positive" if unsafe else "gate logic",
-                       "verdict": "acceptable" if acc else "disqualified"}
-                run.violation(sig, "C16 hourly gate: %s with cvrmse_adj=%r (threshold %r), pnrmse_adj=%r (threshold %r); "
-                              "the statement says %s" % ("acceptable" if acc else "disqualified", fields["cvrmse_adj"], tcv,
-                                                         fields["pnrmse_adj"], tpn, "acceptable" if want else "disqualified"),
-                              case={"stream": "gate", "case": case, "tcv": tcv, "tpn": tpn}, observation=acc, expected=want,
-                              generator="c16.gen_series")
-            gates.append(("{| gc_den := %d%%positive; gc_rows := %s; gc_p := %s; gc_mn := %s; gc_tcv := %s; gc_tpn := %s; "
-                          "gc_acceptable := %s |}" % (case["den"], coq_hrows([(o, p, False) for o, p in case["rows"]]) if len(case["rows"]) <= 150
-                                                      else "rows_%s" % vlib.sha(case["rows"]), zlit(case["p"]), qlit(Fr(MN)),
-                                                      qlit(Fr(tcv)), qlit(Fr(tpn)), coq_bool(acc)), case, (tcv, tpn, acc)))
-    for name, lst, shard in (("baseline", small, 150), ("baseline_long", long_, 4)):
+        (long_ if len(case["rows"]) > 150 else small).append((res["term"], case, fields))
+        for g in res["gates"]:
+            run.count(("gate", vlib.sha(case), g["tcv"], g["tpn"]))
+            run.dist("gate verdict", "acceptable" if g["acc"] else "disqualified")
+            if g["acc"] != g["want"]:
+                run.violation(gate_sig(g["acc"], g["unsafe"], "HourlyModel._model_fit_is_acceptable"),
+                              "C16 hourly gate: %s with cvrmse_adj=%r (threshold %r), pnrmse_adj=%r (threshold %r); the statement says %s" % (
+                                  "acceptable" if g["acc"] else "disqualified", fields["cvrmse_adj"], g["tcv"], fields["pnrmse_adj"], g["tpn"],
+                                  "acceptable" if g["want"] else "disqualified"),
+                              case={"stream": "gate", "case": dict(case, thresholds=[[g["tcv"], g["tpn"]]])}, observation=g["acc"],
+                              expected=g["want"], generator="c16.gen_series")
+            gates.append((g["term"], case, g))
+    for name, lst, shard in (("baseline", small, 130), ("baseline_long", long_, 3)):
         if not lst:
             continue
         bad = run.coq_cases(name, IMPORTS, "", [t[0] for t in lst], "check_baseline", shard=shard, timeout=600)
@@ -630,23 +670,25 @@ def stream_baseline(run, cases):
             report_mismatch(run, name, "baseline_bad", lst[i][0], lst[i][1], lst[i][2])
         for i in bad[6:]:
             run.corr_failures.append({"stream": name, "case": lst[i][1]})
-    # gates: long inputs are shared through the prelude
     g_small = [g for g in gates if len(g[1]["rows"]) <= 150]
     g_long = [g for g in gates if len(g[1]["rows"]) > 150]
-    prel = {}
-    for g in g_long:
-        prel[vlib.sha(g[1]["rows"])] = g[1]["rows"]
-    prelude = "\n".join("Definition rows_%s := %s." % (k, coq_hrows([(o, p, False) for o, p in rows])) for k, rows in prel.items())
-    for name, lst, pre, shard in (("gate", g_small, "", 300), ("gate_long", g_long, prelude, 400)):
-        if not lst:
-            continue
-        bad = run.coq_cases(name, IMPORTS, pre, [t[0] for t in lst], "check_gate", shard=shard, timeout=600)
+    if g_small:
+        bad = run.coq_cases("gate", IMPORTS, "", [t[0] for t in g_small], "check_gate", shard=260, timeout=600)
         if bad is None:
             run.proof_ok = False
-            continue
-        for i in bad[:10]:
-            run.corr_failures.append({"stream": name, "case": lst[i][1], "impl": {"tcv": lst[i][2][0], "tpn": lst[i][2][1], "acceptable": lst[i][2][2]}})
+        else:
+            for i in bad[:10]:
+                run.corr_failures.append({"stream": "gate", "case": g_small[i][1], "impl": {k: g_small[i][2][k] for k in ("tcv", "tpn", "acc")}})
+    if g_long:
+        bad = run.coq_cases("gate_long", IMPORTS, "", [t[0] for t in g_long], "check_gate", shard=4, timeout=600)
+        if bad is None:
+            run.proof_ok = False
+        else:
+            for i in bad[:10]:
+                run.corr_failures.append({"stream": "gate_long", "case": g_long[i][1], "impl": {k: g_long[i][2][k] for k in ("tcv", "tpn", "acc")}})
 
+
+# ------------------------------------------------------------------ stubbed fits
 
 _HD = {}
 
@@ -655,7 +697,8 @@ def hourly_data_object():
     if "h" not in _HD:
         import random
         import fitlib
-        _HD["h"] = fitlib.hourly_baseline(fitlib.hourly_frame(random.Random(7), ndays=365))
+        with contextlib.redirect_stdout(io.StringIO()):
+            _HD["h"] = fitlib.hourly_baseline(fitlib.hourly_frame(random.Random(7), ndays=365))
     return _HD["h"]
 
 
@@ -664,104 +707,124 @@ def daily_data_object(billing=False):
     if key not in _HD:
         import random
         import fitlib
-        if billing:
-            m, t = fitlib.billing_series(random.Random(7))
-            _HD[key] = fitlib.billing_baseline(m, t)
-        else:
-            _HD[key] = fitlib.daily_baseline(fitlib.daily_frame(random.Random(7)))
+        with contextlib.redirect_stdout(io.StringIO()):
+            if billing:
+                m, t = fitlib.billing_series(random.Random(7))
+                _HD[key] = fitlib.billing_baseline(m, t)
+            else:
+                _HD[key] = fitlib.daily_baseline(fitlib.daily_frame(random.Random(7)))
     return _HD[key]
 
 
-def stream_hourly_stub(run, cases):
+def hourly_stub_job(case):
     """HourlyModel.fit with the regression replaced by stubs: the real tail of _fit / _adaptive_fit (parameter count,
     interpolated rows removed, BaselineMetrics) and the real poor-fit disqualification of fit()."""
+    import random
     from opendsm.eemeter import HourlyModel
     from opendsm.eemeter.models.hourly.settings import BaseHourlySettings, ElasticNetSettings
     k_mad = mad_k()
-    rng = run.rng
+    rng = random.Random(case.get("seed", 0))
     hd = hourly_data_object()
-    lst = []
-    for case in cases:
-        rows = case["rows"]
-        n = len(rows)
-        # flags: interpolated_observed / interpolated_temperature (/ interpolated_ghi)
+    rows = case["rows"]
+    n = len(rows)
+    den = case["den"]
+    if "flags" in case:
+        fo, ft = case["flags"]
+        hrows = [(o, p, a or b) for (o, p), a, b in zip(rows, fo, ft)]
+    else:
+        # flags: interpolated_observed / interpolated_temperature
         fo = [rng.random() < 0.15 for _ in range(n)]
         ft = [rng.random() < 0.1 for _ in range(n)]
         if rng.random() < 0.1:
             fo, ft = [False] * n, [False] * n
         # interpolated rows carry wild values: they must not influence the metrics
-        den = case["den"]
         hrows = []
         for (o, p), a, b in zip(rows, fo, ft):
             if (a or b) and fin(o) and fin(p) and rng.random() < 0.8:
                 p = p + rng.choice([1, -1]) * rng.randint(1, 50) * max(1, abs(o))
             hrows.append((o, p, a or b))
-        meas = [(o, p) for o, p, f in hrows if not f]
-        pairs = [(Fr(o, den), Fr(p, den)) for o, p in meas if fin(o) and fin(p)]
-        if len(pairs) < 2:
+    meas = [(o, p) for o, p, f in hrows if not f]
+    pairs = [(Fr(o, den), Fr(p, den)) for o, p in meas if fin(o) and fin(p)]
+    if len(pairs) < 2:
+        return None
+    ncoef = case.get("ncoef") or rng.randint(1, max(1, min(len(pairs) + 2, 12)))
+    nzero = rng.randint(0, 3)
+    icpt2 = rng.random() < 0.5
+    tcv, tpn = case.get("thr") or rng.choice([(1.4, 2.2), (1.4, 2.2), (0.1, 0.1), (0.5, 1e-9), (1e-9, 0.5), (1e9, 1e9)])
+    adaptive = case["adaptive"] if "adaptive" in case else rng.random() < 0.35
+    ghi_col = rng.random() < 0.3
+    coef = np.array([1.5] * ncoef + [0.0] * nzero)
+    icpt = np.array([0.0, 2.0]) if icpt2 else np.array([0.0])
+    nparams = int(np.count_nonzero(coef) + np.count_nonzero(icpt))
+    fr = pd.DataFrame({"observed": [cfloat(o, den) for o, _, _ in hrows], "predicted": [cfloat(p, den) for _, p, _ in hrows],
+                       "interpolated_observed": fo, "interpolated_temperature": ft, "temperature": 50.0})
+    if ghi_col:
+        fr["interpolated_ghi"] = False
+    en = ElasticNetSettings(adaptive_weights=True, adaptive_weight_max_iter=rng.choice([1, 3]), adaptive_weight_tol=1e-4) \
+        if adaptive else ElasticNetSettings(adaptive_weights=False, adaptive_weight_max_iter=None, adaptive_weight_tol=None)
+    hm = HourlyModel(settings=BaseHourlySettings(cvrmse_threshold=tcv, pnrmse_threshold=tpn, elasticnet=en))
+    yfit = np.ones((3, 24))
+    hm._prepare_features = lambda df: (None, None, yfit)
+    hm._model = types.SimpleNamespace(fit=lambda X, y, **kw: None, coef_=coef, intercept_=icpt, predict=lambda X: yfit * 0.9)
+    hm._predict = lambda data, X=None, _fr=fr: _fr.copy()
+    rcase = dict(case, flags=[fo, ft], rows=[[o, p] for o, p, _ in hrows], ncoef=ncoef, thr=[tcv, tpn], adaptive=adaptive)
+    out = {"case": rcase, "adaptive": adaptive, "any_flag": any(f for _, _, f in hrows), "nparams": nparams, "tcv": tcv, "tpn": tpn}
+    try:
+        with contextlib.redirect_stdout(io.StringIO()), np.errstate(all="ignore"):
+            hm.fit(hd)
+            fields = flatten_dump(hm.baseline_metrics.model_dump())
+            stored_p = int(hm.baseline_metrics.num_model_params)
+    except Exception as e:  # noqa
+        out["raised"] = "%s: %s" % (type(e).__name__, str(e)[:200])
+        return out
+    dq = any(w.qualified_name == "eemeter.model_fit_metrics" for w in hm.disqualification)
+    fails, T = oracle_baseline(pairs, nparams, fields, k_mad)
+    out.update(fields=fields, stored_p=stored_p, dq=dq, fails=fails, want_dq=not true_gate(T, tcv, tpn), unsafe=unsafe_ratios(T, fields))
+    out["term"] = ("{| hc_den := %d%%positive; hc_rows := %s; hc_frows := []; hc_p := %s; hc_mn := %s; hc_k := %s; hc_exp := %s |}" % (
+        den, coq_hrows(hrows), zlit(stored_p), flit(MN), flit(k_mad), coq_list([obsv(fields[f]) for f in FIELDS])))
+    out["gterm"] = ("{| gc_den := %d%%positive; gc_rows := %s; gc_p := %s; gc_mn := %s; gc_tcv := %s; gc_tpn := %s; gc_acceptable := %s |}" % (
+        den, coq_hrows(hrows), zlit(stored_p), flit(MN), flit(tcv), flit(tpn), coq_bool(not dq)))
+    return out
+
+
+def stream_hourly_stub(run, cases):
+    hourly_data_object()
+    lst = []
+    for r in pmap(hourly_stub_job, cases):
+        if r is None:
             continue
-        ncoef = rng.randint(1, max(1, min(len(pairs) + 2, 12)))
-        coef = np.array([1.5] * ncoef + [0.0] * rng.randint(0, 3))
-        icpt = np.array([0.0, 2.0]) if rng.random() < 0.5 else np.array([0.0])
-        nparams = int(np.count_nonzero(coef) + np.count_nonzero(icpt))
-        fr = pd.DataFrame({"observed": [cfloat(o, den) for o, _, _ in hrows], "predicted": [cfloat(p, den) for _, p, _ in hrows],
-                           "interpolated_observed": fo, "interpolated_temperature": ft, "temperature": 50.0})
-        if rng.random() < 0.3:
-            fr["interpolated_ghi"] = False
-        tcv, tpn = rng.choice([(1.4, 2.2), (0.1, 0.1), (0.5, 1e-9), (1e-9, 0.5), (1e9, 1e9)])
-        adaptive = rng.random() < 0.35
-        st = BaseHourlySettings(cvrmse_threshold=tcv, pnrmse_threshold=tpn,
-                                elasticnet=ElasticNetSettings(adaptive_weights=adaptive, adaptive_weight_max_iter=1))
-        hm = HourlyModel(settings=st)
-        yfit = np.ones((3, 24))
-        hm._prepare_features = lambda df: (None, None, yfit)
-        hm._model = types.SimpleNamespace(fit=lambda X, y, **kw: None, coef_=coef, intercept_=icpt,
-                                          predict=lambda X: yfit * 0.9)
-        hm._predict = lambda data, X=None, _fr=fr: _fr.copy()
-        try:
-            with contextlib.redirect_stdout(io.StringIO()), np.errstate(all="ignore"):
-                hm.fit(hd)
-                fields = flatten_dump(hm.baseline_metrics.model_dump())
-                stored_p = int(hm.baseline_metrics.num_model_params)
-        except Exception as e:  # noqa
-            run.corr_failures.append({"stream": "hourly_stub", "case": case, "impl": "raised %s: %s" % (type(e).__name__, str(e)[:200])})
+        case = r["case"]
+        if "raised" in r:
+            run.corr_failures.append({"stream": "hourly_stub", "case": case, "impl": "raised " + r["raised"]})
             continue
-        dq = any(w.qualified_name == "eemeter.model_fit_metrics" for w in hm.disqualification)
-        run.count(("hstub", vlib.sha(case), vlib.sha([fo, ft]), nparams, tcv, tpn, adaptive))
-        run.dist("hourly_stub path", "_adaptive_fit" if adaptive else "_fit")
-        run.dist("hourly_stub interpolated rows", "none" if not any(f for _, _, f in hrows) else "some")
+        fields = r["fields"]
+        run.count(("hstub", vlib.sha(case)))
+        run.dist("hourly_stub path", "_adaptive_fit" if r["adaptive"] else "_fit")
+        run.dist("hourly_stub interpolated rows", "some" if r["any_flag"] else "none")
+        run.dist("hourly_stub verdict", "disqualified" if r["dq"] else "acceptable")
+        rc = {"stream": "hourly_stub", "case": case}
         # oracle: the stored metrics are the textbook statistics of the measured rows, with the model's parameter count
-        if stored_p != nparams:
+        if r["stored_p"] != r["nparams"]:
             run.violation({"defect": "num_model_params is not the number of non-zero coefficients", "call": "HourlyModel.fit"},
-                          "C16 HourlyModel.fit stored num_model_params=%d, the regression has %d non-zero parameters" % (stored_p, nparams),
-                          case={"stream": "hourly_stub", "case": case}, observation=stored_p, expected=nparams, generator="c16.hourly_stub")
-        fails, T = oracle_baseline(pairs, nparams, fields, k_mad)
-        for sig, msg in fails:
+                          "C16 HourlyModel.fit stored num_model_params=%d, the regression has %d non-zero parameters" % (r["stored_p"], r["nparams"]),
+                          case=rc, observation=r["stored_p"], expected=r["nparams"], generator="c16.hourly_stub")
+        for sig, msg in r["fails"]:
             run.violation(dict(sig, call="HourlyModel.fit"), "C16 HourlyModel.fit baseline_metrics (measured rows): " + msg,
-                          case={"stream": "hourly_stub", "case": case, "flags": [fo, ft]}, observation=fields, generator="c16.hourly_stub")
-        want_dq = not true_gate(T, tcv, tpn)
-        if dq != want_dq:
-            unsafe = [nm for nm, d_ in (("cvrmse_adj", T.mean_obs), ("pnrmse_adj", T.iqr_obs)) if d_ <= T.mn and fields[nm] is not None]
-            run.violation({"defect": "poor-fit verdict differs from the statement", "call": "HourlyModel.fit",
-                           "cause": "ratio reported for a denominator that is not safely positive" if unsafe else "gate logic",
-                           "verdict": "disqualified" if dq else "acceptable"},
+                          case=rc, observation=fields, generator="c16.hourly_stub")
+        if r["dq"] != r["want_dq"]:
+            run.violation(gate_sig(not r["dq"], r["unsafe"], "HourlyModel.fit"),
                           "C16 HourlyModel.fit: %s with cvrmse_adj=%r (threshold %r), pnrmse_adj=%r (threshold %r)" % (
-                              "disqualified" if dq else "not disqualified", fields["cvrmse_adj"], tcv, fields["pnrmse_adj"], tpn),
-                          case={"stream": "hourly_stub", "case": case, "tcv": tcv, "tpn": tpn}, observation=dq, expected=want_dq,
-                          generator="c16.hourly_stub")
-        term = ("{| hc_den := %d%%positive; hc_rows := %s; hc_p := %s; hc_mn := %s; hc_k := %s; hc_exp := %s |}" % (
-            den, coq_hrows(hrows), zlit(stored_p), qlit(Fr(MN)), qlit(Fr(k_mad)), coq_list([obsv(fields[f]) for f in FIELDS])))
-        gterm = ("{| gc_den := %d%%positive; gc_rows := %s; gc_p := %s; gc_mn := %s; gc_tcv := %s; gc_tpn := %s; gc_acceptable := %s |}" % (
-            den, coq_hrows(hrows), zlit(stored_p), qlit(Fr(MN)), qlit(Fr(tcv)), qlit(Fr(tpn)), coq_bool(not dq)))
-        lst.append((term, gterm, case, fields, dq))
+                              "disqualified" if r["dq"] else "not disqualified", fields["cvrmse_adj"], r["tcv"], fields["pnrmse_adj"], r["tpn"]),
+                          case=rc, observation=r["dq"], expected=r["want_dq"], generator="c16.hourly_stub")
+        lst.append((r["term"], r["gterm"], case, fields, r["dq"]))
     if lst:
-        bad = run.coq_cases("hourly_stub", IMPORTS, "", [t[0] for t in lst], "check_hourly", shard=100, timeout=600)
+        bad = run.coq_cases("hourly_stub", IMPORTS, "", [t[0] for t in lst], "check_hourly", shard=40, timeout=600)
         if bad is None:
             run.proof_ok = False
         else:
             for i in bad[:6]:
                 report_mismatch(run, "hourly_stub", "hourly_bad", lst[i][0], lst[i][2], lst[i][3])
-        bad = run.coq_cases("hourly_stub_gate", IMPORTS, "", [t[1] for t in lst], "check_gate", shard=200, timeout=600)
+        bad = run.coq_cases("hourly_stub_gate", IMPORTS, "", [t[1] for t in lst], "check_gate", shard=60, timeout=600)
         if bad is None:
             run.proof_ok = False
         else:
@@ -793,8 +856,13 @@ def gen_daily(rng, k):
     else:
         obs = [U + _noise(rng, S) for _ in range(n)]
     resid = [0] * n if kind == "perfect" else [_noise(rng, E) for _ in range(n)]
-    return {"kind": kind, "den": den, "resid": resid, "obs": obs, "split": n1,
-            "thr": rng.choice([1.0, 1.0, 0.1, 0.0, 0.5, 10.0]), "billing": rng.random() < 0.3}
+    thr = rng.choice([1.0, 1.0, 0.1, 0.0, 0.5, 10.0])
+    if rng.random() < 0.3 and kind != "perfect":
+        # a threshold right at the realised CVRMSE (one ulp-ish above or below)
+        mean = sum(obs) / n
+        if mean > 0:
+            thr = math.sqrt(sum(r * r for r in resid) / n) / mean * rng.choice([0.999999, 1.000001])
+    return {"kind": kind, "den": den, "resid": resid, "obs": obs, "split": n1, "thr": thr, "billing": rng.random() < 0.3}
 
 
 def run_daily_stub(case):
@@ -804,7 +872,8 @@ def run_daily_stub(case):
     obs = np.array([o / den for o in case["obs"]], dtype=float)
     s = case["split"]
     comp = lambda a, b: types.SimpleNamespace(wSSE=float(np.sum(a ** 2)), N=len(a), resid=a, obs=b)  # noqa
-    comps = {"fw-su_sh_wi": comp(resid, obs), "wd-su_sh_wi": comp(resid[:s], obs[:s]), "we-su_sh_wi": comp(resid[s:], obs[s:])}
+    # a decoy "no split" component with other values: the reported error must be that of the chosen combination
+    comps = {"fw-su_sh_wi": comp(resid * 3.0 + 1.0, obs + 7.0), "wd-su_sh_wi": comp(resid[:s], obs[:s]), "we-su_sh_wi": comp(resid[s:], obs[s:])}
     with contextlib.redirect_stdout(io.StringIO()):
         cls = BillingModel if case["billing"] else DailyModel
         m = cls(settings={"developer_mode": True, "cvrmse_threshold": case["thr"]})
@@ -836,6 +905,7 @@ def oracle_daily(case, obs):
     mae = sum(abs(r) for r in resid) / n
     mean = sum(ob) / n
     rng_ = Textbook.quantile(ob, Fr(19, 20)) - Textbook.quantile(ob, Fr(1, 20))
+    mx = max(abs(o) for o in ob)
 
     def bad(field, msg):
         fails.append(({"defect": "statistic differs from the textbook formula", "field": field, "call": "DailyModel._get_error_metrics"},
@@ -846,13 +916,13 @@ def oracle_daily(case, obs):
             bad(f, "reported %r, textbook %.12g" % (g, float(fsqrt(sq))))
     if e["MAE"] is None or isinstance(e["MAE"], str) or not close(Fr(e["MAE"]), mae):
         bad("MAE", "reported %r, textbook %.12g" % (e["MAE"], float(mae)))
-    cv_true = None
     for f, d_ in (("CVRMSE", mean), ("PNRMSE", rng_)):
         g = e[f]
         if d_ == 0:
             continue                     # the quotient does not exist; nothing to compare
-        if g is None or isinstance(g, str) or (Fr(g) > 0) != (d_ > 0) and mse != 0 or not close(Fr(g) ** 2, mse / (d_ * d_),
-                                                                                               0 if f == "CVRMSE" else 0):
+        if abs(d_) < Fr(1, 10**6) * mx:
+            continue                     # denominator lost to rounding in binary64
+        if g is None or isinstance(g, str) or ((Fr(g) > 0) != (d_ > 0) and mse != 0) or not close(Fr(g) ** 2, mse / (d_ * d_)):
             bad(f, "reported %r, textbook %.12g" % (g, float(fsqrt(mse / (d_ * d_)))))
     # gate: disqualified exactly when CVRMSE exceeds the threshold
     thr = Fr(case["thr"])
@@ -860,16 +930,30 @@ def oracle_daily(case, obs):
         exceeds = mean > 0 and mse / (mean * mean) > thr * thr
         near = abs(float(fsqrt(mse / (mean * mean))) - float(thr)) <= 1e-12 * max(1.0, float(thr))
         if not near and obs["dq"] != exceeds:
-            fails.append(({"defect": "poor-fit verdict differs from the statement", "call": "DailyModel.fit",
+            fails.append(({"defect": "poor-fit verdict differs from the statement", "call": "DailyModel.fit", "cause": "gate logic",
                            "verdict": "disqualified" if obs["dq"] else "acceptable"},
                           "%s with CVRMSE=%r and threshold %r" % ("disqualified" if obs["dq"] else "not disqualified", e["CVRMSE"], case["thr"])))
     return fails
 
 
+def daily_stub_job(case):
+    obs = run_daily_stub(case)
+    out = {"obs": obs}
+    if obs["kind"] == "ok":
+        out["fails"] = oracle_daily(case, obs)
+        e = obs["error"]
+        out["term"] = ("{| dc_den := %d%%positive; dc_resid := %s; dc_obs := %s; dc_fresid := []; dc_fobs := []; dc_thr := %s; dc_exp := %s; dc_dq := %s |}" % (
+            case["den"], coq_list([zlit(r) for r in case["resid"]]), coq_list([zlit(o) for o in case["obs"]]),
+            flit(case["thr"]), coq_list([obsv(e[f]) for f in ("RMSE", "MAE", "CVRMSE", "PNRMSE")]), coq_bool(obs["dq"])))
+    return out
+
+
 def stream_daily_stub(run, cases):
+    daily_data_object(False)
+    daily_data_object(True)
     lst = []
-    for case in cases:
-        obs = run_daily_stub(case)
+    for case, r in zip(cases, pmap(daily_stub_job, cases)):
+        obs = r["obs"]
         run.count(("dstub", vlib.sha(case)))
         run.dist("daily_stub kind", case["kind"] + ("/billing" if case["billing"] else ""))
         if obs["kind"] != "ok":
@@ -878,17 +962,12 @@ def stream_daily_stub(run, cases):
                           observation=obs, generator="c16.gen_daily")
             continue
         run.dist("daily_stub verdict", "disqualified" if obs["dq"] else "acceptable")
-        for sig, msg in oracle_daily(case, obs):
+        for sig, msg in r["fails"]:
             run.violation(sig, "C16 daily/billing error metrics: " + msg, case={"stream": "daily_stub", "case": case},
                           observation=obs, generator="c16.gen_daily")
-        s = case["split"]
-        e = obs["error"]
-        term = ("{| dc_den := %d%%positive; dc_resid := %s; dc_obs := %s; dc_thr := %s; dc_exp := %s; dc_dq := %s |}" % (
-            case["den"], coq_list([zlit(r) for r in case["resid"]]), coq_list([zlit(o) for o in case["obs"]]),
-            qlit(Fr(case["thr"])), coq_list([obsv(e[f]) for f in ("RMSE", "MAE", "CVRMSE", "PNRMSE")]), coq_bool(obs["dq"])))
-        lst.append((term, case, obs))
+        lst.append((r["term"], case, obs))
     if lst:
-        bad = run.coq_cases("daily_stub", IMPORTS, "", [t[0] for t in lst], "check_daily", shard=100, timeout=600)
+        bad = run.coq_cases("daily_stub", IMPORTS, "", [t[0] for t in lst], "check_daily", shard=40, timeout=600)
         if bad is None:
             run.proof_ok = False
         else:
@@ -896,79 +975,85 @@ def stream_daily_stub(run, cases):
                 report_mismatch(run, "daily_stub", "daily_bad", lst[i][0], lst[i][1], lst[i][2])
 
 
-def stream_reporting(run, cases):
+# ------------------------------------------------------------------ ReportingMetrics
+
+def reporting_job(case):
     """ReportingMetrics over a baseline: n, sums, savings, total_savings_uncertainty (t and the frequency factor are inputs)"""
+    import random
     from opendsm.common.metrics import BaselineMetrics, ReportingMetrics
-    rng = run.rng
-    lst = []
-    for case in cases:
-        pairs = finite_pairs(case)
-        if len(pairs) < 3:
-            continue
+    rng = random.Random(case.get("seed", 0))
+    pairs = finite_pairs(case)
+    if len(pairs) < 3:
+        return None
+    try:
+        bm = BaselineMetrics(df=frame_of(case), num_model_params=case["p"])
+        with np.errstate(all="ignore"):
+            bf = flatten_dump(bm.model_dump())
+    except Exception:  # noqa
+        return None
+    rep = case.get("reporting") or gen_series(rng, rng.randrange(10**6))
+    m = len(rep["rows"])
+    freq = case.get("freq") or rng.choice(["hourly", "daily", "billing"])
+    idx = pd.date_range("2023-01-01", periods=m, freq={"hourly": "h", "daily": "D", "billing": "30D"}[freq], tz="UTC")
+    conf = case.get("conf") or rng.choice([0.9, 0.8, 0.95, 0.68])
+    tail = case.get("tail") or rng.choice([1, 2])
+    rdf = frame_of(rep, index=idx)
+    out = {}
+    rm = ReportingMetrics(baseline_metrics=bm, reporting_df=rdf, data_frequency=freq, confidence_level=conf, t_tail=tail)
+    for f in ("n", "observed_sum", "predicted_sum", "t_stat", "savings", "total_savings_uncertainty"):
         try:
-            bm = BaselineMetrics(df=frame_of(case), num_model_params=case["p"])
             with np.errstate(all="ignore"):
-                bf = flatten_dump(bm.model_dump())
-        except Exception:  # noqa
+                out[f] = canon(getattr(rm, f))
+        except Exception as e:  # noqa
+            out[f] = "raise"
+            out[f + "_exc"] = type(e).__name__
+    rp = finite_pairs(rep)
+    rcase = dict(case, reporting=rep, freq=freq, conf=conf, tail=tail)
+    res = {"case": rcase, "out": out, "freq": freq, "nrep": len(rp), "fails": []}
+    if not rp:
+        return res
+    so, sp = sum(a for a, _ in rp), sum(b for _, b in rp)
+    for f, want in (("n", Fr(len(rp))), ("observed_sum", so), ("predicted_sum", sp), ("savings", sp - so)):
+        g = out[f]
+        if g is None or isinstance(g, str) or not close(Fr(g), want, max(abs(so), abs(sp)) if f == "savings" else 0):
+            res["fails"].append(({"defect": "statistic differs from the textbook formula", "field": "reporting." + f, "call": "ReportingMetrics"},
+                                 "C16 ReportingMetrics.%s = %r, textbook %.12g" % (f, g, float(want))))
+    # uncertainty: the inputs are n, n', m, E = predicted_sum, cvrmse_autocorr_adj, t (scipy) and the frequency factor
+    months = len(set(t.month for t, (o, p) in zip(idx, rep["rows"]) if fin(o) and fin(p)))
+    factor = 1.26 if freq == "hourly" else float(np.polyval([-0.00024, 0.03535, 1.00286] if freq == "daily" else
+                                                             [-0.00022, 0.03306, 0.94054], months))
+    cv, npv, tst, u = bf["cvrmse_autocorr_adj"], bf["n_prime"], out["t_stat"], out["total_savings_uncertainty"]
+    if not isinstance(tst, float):
+        return res
+    if isinstance(cv, float) and isinstance(npv, float) and npv > 0:
+        # oracle (ASHRAE-14 form): U = factor * E * t * cv * sqrt(n/(m n') (1 + 2/n'))
+        lin = Fr(factor) * sp * Fr(tst) * Fr(cv)
+        want_sq = lin ** 2 * Fr(len(pairs)) / (len(rp) * Fr(npv)) * (1 + 2 / Fr(npv))
+        if not isinstance(u, float) or not close(Fr(u) ** 2, want_sq) or (want_sq != 0 and (u > 0) != (lin > 0)):
+            res["fails"].append(({"defect": "statistic differs from the textbook formula", "field": "reporting.total_savings_uncertainty",
+                                  "call": "ReportingMetrics"},
+                                 "C16 ReportingMetrics.total_savings_uncertainty = %r, ASHRAE form gives %.12g" % (u, float(fsqrt(want_sq)))))
+    res["term"] = ("{| rc_den := %d%%positive; rc_rows := %s; rc_t_factor := (%s, %s); rc_cv := %s; rc_n := %s; rc_np := %s; rc_exp := %s |}" % (
+        rep["den"], coq_rows(rep["rows"]), flit(tst), flit(factor), obsv(cv), zlit(len(pairs)), obsv(npv),
+        coq_list([obsv(out[f]) for f in ("n", "observed_sum", "predicted_sum", "savings", "total_savings_uncertainty")])))
+    return res
+
+
+def stream_reporting(run, cases):
+    lst = []
+    for r in pmap(reporting_job, cases):
+        if r is None:
             continue
-        rep = gen_series(rng, rng.randrange(10**6))
-        m = len(rep["rows"])
-        freq = rng.choice(["hourly", "daily", "billing"])
-        idx = pd.date_range("2023-01-01", periods=m, freq={"hourly": "h", "daily": "D", "billing": "30D"}[freq], tz="UTC")
-        conf = rng.choice([0.9, 0.8, 0.95, 0.68])
-        tail = rng.choice([1, 2])
-        rdf = frame_of(rep, index=idx)
-        out = {}
-        rm = ReportingMetrics(baseline_metrics=bm, reporting_df=rdf, data_frequency=freq, confidence_level=conf, t_tail=tail)
-        for f in ("n", "observed_sum", "predicted_sum", "t_stat", "savings", "total_savings_uncertainty"):
-            try:
-                with np.errstate(all="ignore"):
-                    out[f] = canon(getattr(rm, f))
-            except Exception as e:  # noqa
-                out[f] = "raise"
-                out[f + "_exc"] = type(e).__name__
-        rp = finite_pairs(rep)
-        run.count(("rep", vlib.sha(case), vlib.sha(rep), freq, conf, tail), nontrivial=len(rp) >= 1)
-        run.dist("reporting frequency", freq)
+        out = r["out"]
+        run.count(("rep", vlib.sha(r["case"])), nontrivial=r["nrep"] >= 1)
+        run.dist("reporting frequency", r["freq"])
         run.dist("reporting uncertainty", "number" if isinstance(out["total_savings_uncertainty"], float) else str(out["total_savings_uncertainty"]))
-        if not rp:
-            continue
-        so, sp = sum(a for a, _ in rp), sum(b for _, b in rp)
-        for f, want in (("n", Fr(len(rp))), ("observed_sum", so), ("predicted_sum", sp), ("savings", sp - so)):
-            g = out[f]
-            if g is None or isinstance(g, str) or not close(Fr(g), want, max(abs(so), abs(sp)) if f == "savings" else 0):
-                run.violation({"defect": "statistic differs from the textbook formula", "field": "reporting." + f, "call": "ReportingMetrics"},
-                              "C16 ReportingMetrics.%s = %r, textbook %.12g" % (f, g, float(want)),
-                              case={"stream": "reporting", "baseline": case, "reporting": rep}, observation=out, generator="c16.stream_reporting")
-        # uncertainty: the inputs are n, n', m, E = predicted_sum, cvrmse_autocorr_adj, t (scipy) and the frequency factor
-        months = len(set((t.year, t.month) for t, (o, p) in zip(idx, rep["rows"]) if fin(o) and fin(p)))
-        months = len(set(t.month for t, (o, p) in zip(idx, rep["rows"]) if fin(o) and fin(p)))
-        factor = 1.26 if freq == "hourly" else float(np.polyval([-0.00024, 0.03535, 1.00286] if freq == "daily" else
-                                                                 [-0.00022, 0.03306, 0.94054], months))
-        cv = bf["cvrmse_autocorr_adj"]
-        npv = bf["n_prime"]
-        tst = out["t_stat"]
-        u = out["total_savings_uncertainty"]
-        cvq = "None"
-        if isinstance(cv, float) and isinstance(npv, float) and isinstance(tst, float) and npv > 0:
-            cvq = "(Some (%s, %s))" % (coq_bool(cv < 0), qlit(Fr(cv) ** 2))
-            # oracle (ASHRAE-14 form): U = factor * E * t * cv * sqrt(n/(m n') (1 + 2/n'))
-            want_sq = (Fr(factor) * sp * Fr(tst) * Fr(cv)) ** 2 * Fr(len(pairs)) / (len(rp) * Fr(npv)) * (1 + 2 / Fr(npv))
-            if not isinstance(u, float) or not close(Fr(u) ** 2, want_sq) or (want_sq != 0 and (u > 0) != (Fr(factor) * sp * Fr(tst) * Fr(cv) > 0)):
-                run.violation({"defect": "statistic differs from the textbook formula", "field": "reporting.total_savings_uncertainty",
-                               "call": "ReportingMetrics"},
-                              "C16 ReportingMetrics.total_savings_uncertainty = %r, ASHRAE form gives %.12g" % (u, float(fsqrt(want_sq))),
-                              case={"stream": "reporting", "baseline": case, "reporting": rep, "freq": freq}, observation=out,
-                              generator="c16.stream_reporting")
-        elif not isinstance(tst, float):
-            continue
-        term = ("{| rc_den := %d%%positive; rc_rows := %s; rc_E_t_factor := (%s, %s); rc_cv := %s; rc_n := %s; rc_np := %s; rc_exp := %s |}" % (
-            rep["den"], coq_rows(rep["rows"]), qlit(Fr(tst)), qlit(Fr(factor)), cvq, zlit(len(pairs)),
-            qlit(Fr(npv)) if isinstance(npv, float) else "0",
-            coq_list([obsv(out[f]) for f in ("n", "observed_sum", "predicted_sum", "savings", "total_savings_uncertainty")])))
-        lst.append((term, {"baseline": case, "reporting": rep, "freq": freq}, out))
+        for sig, msg in r["fails"]:
+            run.violation(sig, msg, case={"stream": "reporting", "case": r["case"]}, observation=out, generator="c16.reporting_job")
+        if "term" in r:
+            lst.append((r["term"], r["case"], out))
     if lst:
-        bad = run.coq_cases("reporting", IMPORTS, "", [t[0] for t in lst], "check_reporting", shard=100, timeout=600)
+        bad = run.coq_cases("reporting", IMPORTS, "", [t[0] for t in lst], "check_reporting", shard=40, timeout=600)
         if bad is None:
             run.proof_ok = False
         else:
@@ -977,22 +1062,6 @@ def stream_reporting(run, cases):
 
 
 # ------------------------------------------------------------------ real fits
-
-def float_rows_term(rows):
-    """rows of (observed, predicted, flag) binary64 values -> common power-of-two denominator and integer numerators"""
-    K = 0
-    for o, p, _ in rows:
-        for v in (o, p):
-            if v is not None:
-                K = max(K, Fr(v).denominator.bit_length() - 1)
-    if K > 400:
-        return None, None
-    den = 2 ** K
-    out = []
-    for o, p, f in rows:
-        out.append((None if o is None else int(Fr(o) * den), None if p is None else int(Fr(p) * den), f))
-    return den, out
-
 
 def hourly_fit_job(args):
     seed, variant = args
@@ -1006,7 +1075,7 @@ def hourly_fit_job(args):
     if variant == "netmeter":
         df["observed"] = df["observed"] - df["observed"].mean() * rng.choice([0.9, 1.0, 1.3])
     n = len(df)
-    for _ in range(rng.choice([0, 3, 12])):
+    for _ in range(rng.choice([3, 12, 40])):
         i = rng.randrange(24, n - 30)
         df.iloc[i:i + rng.choice([1, 2, 5]), 0] = np.nan
     for _ in range(rng.choice([0, 2, 6])):
@@ -1015,7 +1084,8 @@ def hourly_fit_job(args):
     with contextlib.redirect_stdout(io.StringIO()):
         bd = fitlib.hourly_baseline(df)
         m = HourlyModel().fit(bd, ignore_disqualification=True)
-        fields = flatten_dump(m.baseline_metrics.model_dump())
+        with np.errstate(all="ignore"):
+            fields = flatten_dump(m.baseline_metrics.model_dump())
         pr = m.predict(bd, ignore_disqualification=True)
     cols = [c for c in pr.columns if c.startswith("interpolated_")]
     flag = pr[cols].any(axis=1).to_numpy()
@@ -1023,10 +1093,19 @@ def hourly_fit_job(args):
     p = pr["predicted"].to_numpy(dtype=float)
     rows = [(float(a) if np.isfinite(a) else None, float(b) if np.isfinite(b) else None, bool(f)) for a, b, f in zip(o, p, flag)]
     nparams = int(np.count_nonzero(m._model.coef_) + np.count_nonzero(m._model.intercept_))
-    return {"seed": seed, "variant": variant, "ndays": ndays, "fields": fields, "rows": rows, "nparams": nparams,
-            "stored_p": int(m.baseline_metrics.num_model_params), "n_interpolated": int(flag.sum()),
-            "dq": any(w.qualified_name == "eemeter.model_fit_metrics" for w in m.disqualification),
-            "tcv": float(m.settings.cvrmse_threshold), "tpn": float(m.settings.pnrmse_threshold)}
+    k_mad = mad_k()
+    meas = [(a, b) for a, b, f in rows if not f]
+    pairs = [(Fr(a), Fr(b)) for a, b in meas if a is not None and b is not None]
+    fails, T = oracle_baseline(pairs, nparams, fields, k_mad)
+    tcv, tpn = float(m.settings.cvrmse_threshold), float(m.settings.pnrmse_threshold)
+    dq = any(w.qualified_name == "eemeter.model_fit_metrics" for w in m.disqualification)
+    frows = coq_list(["(%s, %s, %s)" % ("nan" if a is None else vlib.fhex(a), "nan" if b is None else vlib.fhex(b), coq_bool(f))
+                      for a, b, f in rows])
+    term = ("{| hc_den := 1%%positive; hc_rows := []; hc_frows := %s; hc_p := %s; hc_mn := %s; hc_k := %s; hc_exp := %s |}" % (
+        frows, zlit(int(m.baseline_metrics.num_model_params)), flit(MN), flit(k_mad), coq_list([obsv(fields[f]) for f in FIELDS])))
+    return {"seed": seed, "variant": variant, "ndays": ndays, "fields": fields, "nrows": len(rows), "nparams": nparams,
+            "stored_p": int(m.baseline_metrics.num_model_params), "n_interpolated": int(flag.sum()), "dq": dq, "tcv": tcv, "tpn": tpn,
+            "fails": fails, "want_dq": not true_gate(T, tcv, tpn), "unsafe": unsafe_ratios(T, fields), "term": term}
 
 
 def daily_fit_job(args):
@@ -1044,104 +1123,116 @@ def daily_fit_job(args):
     for _ in range(rng.choice([0, 4])):
         df.iloc[rng.randrange(5, 360), 0] = np.nan
     with contextlib.redirect_stdout(io.StringIO()):
-        bd = fitlib.daily_baseline(df, electric=(variant != "netmeter") or True)
+        bd = fitlib.daily_baseline(df)
         m = DailyModel().fit(bd, ignore_disqualification=True)
     comps = m.best_combination.split("__")
-    resid = np.hstack([m.fit_components[c].resid for c in comps]).astype(float)
-    obs = np.hstack([m.fit_components[c].obs for c in comps]).astype(float)
-    return {"seed": seed, "variant": variant, "error": {k: canon(v) for k, v in m.error.items()},
-            "resid": [float(x) for x in resid], "obs": [float(x) for x in obs], "thr": float(m.settings.cvrmse_threshold),
-            "dq": any(w.qualified_name == "eemeter.model_fit_metrics.cvrmse" for w in m.disqualification),
-            "n_meter": int(np.isfinite(bd.df["observed"]).sum())}
+    resid = [float(x) for x in np.hstack([m.fit_components[c].resid for c in comps]).astype(float)]
+    obs = [float(x) for x in np.hstack([m.fit_components[c].obs for c in comps]).astype(float)]
+    error = {k: canon(v) for k, v in m.error.items()}
+    dq = any(w.qualified_name == "eemeter.model_fit_metrics.cvrmse" for w in m.disqualification)
+    thr = float(m.settings.cvrmse_threshold)
+    K = max(Fr(v).denominator.bit_length() - 1 for v in resid + obs)
+    den = 2 ** K          # exact rationals for the oracle
+    case = {"kind": "fit", "den": den, "resid": [int(Fr(v) * den) for v in resid], "obs": [int(Fr(v) * den) for v in obs],
+            "thr": thr, "billing": False, "split": 0}
+    fails = oracle_daily(case, {"error": error, "dq": dq})
+    # the residuals the error is computed from are those of the fitted model on the measured days
+    pr = m.predict(bd, ignore_disqualification=True)
+    sub = pr[np.isfinite(pr["observed"]) & np.isfinite(pr["predicted"])]
+    rmse_pred = float(((sub["observed"] - sub["predicted"]) ** 2).mean() ** 0.5)
+    term = ("{| dc_den := 1%%positive; dc_resid := []; dc_obs := []; dc_fresid := %s; dc_fobs := %s; dc_thr := %s; dc_exp := %s; dc_dq := %s |}" % (
+        coq_list([vlib.fhex(x) for x in resid]), coq_list([vlib.fhex(x) for x in obs]), flit(thr),
+        coq_list([obsv(error[f]) for f in ("RMSE", "MAE", "CVRMSE", "PNRMSE")]), coq_bool(dq)))
+    return {"seed": seed, "variant": variant, "error": error, "n": len(resid), "thr": thr, "dq": dq, "fails": fails, "term": term,
+            "n_meter": int(np.isfinite(bd.df["observed"]).sum()), "rmse_pred": rmse_pred,
+            "obs_sorted_equal": bool(len(obs) == len(sub) and np.allclose(np.sort(obs), np.sort(sub["observed"].to_numpy(dtype=float)),
+                                                                          rtol=1e-12, atol=0))}
 
 
-def stream_fits(run):
-    import multiprocessing as mp
-    k_mad = mad_k()
-    nh, nd = run.n(3, 40), run.n(2, 30)
+def stream_fits(run, hjobs=None, djobs=None):
     hv = ["plain", "netmeter", "ghi", "plain"]
     dv = ["plain", "netmeter", "noisy"]
-    hjobs = [(run.rng.randrange(10**9), hv[i % len(hv)]) for i in range(nh)]
-    djobs = [(run.rng.randrange(10**9), dv[i % len(dv)]) for i in range(nd)]
-    with mp.get_context("fork").Pool(min(8, nh + nd)) as pool:
-        hres = pool.map_async(hourly_fit_job, hjobs, chunksize=1)
-        dres = pool.map_async(daily_fit_job, djobs, chunksize=1)
-        hres, dres = hres.get(1500), dres.get(1500)
+    if hjobs is None:
+        hjobs = [(run.rng.randrange(10**9), hv[i % len(hv)]) for i in range(run.n(3, 40))]
+    if djobs is None:
+        djobs = [(run.rng.randrange(10**9), dv[i % len(dv)]) for i in range(run.n(2, 30))]
+    import multiprocessing as mp
+    if _POOL[0] is None:
+        _POOL[0] = mp.get_context("fork").Pool(int(os.environ.get("C16_PROCS", "10")))
+    ha = _POOL[0].map_async(hourly_fit_job, hjobs, chunksize=1)
+    da = _POOL[0].map_async(daily_fit_job, djobs, chunksize=1)
+    hres, dres = ha.get(1500), da.get(1500)
     hl = []
     for r in hres:
-        meas = [(o, p) for o, p, f in r["rows"] if not f]
-        pairs = [(Fr(o), Fr(p)) for o, p in meas if o is not None and p is not None]
         run.count(("hfit", r["seed"], r["variant"]))
         run.dist("hourly_fit variant", r["variant"])
         run.dist("hourly_fit verdict", "disqualified" if r["dq"] else "acceptable")
-        run.sample({"stream": "hourly_fit", "variant": r["variant"], "rows": len(r["rows"]), "interpolated": r["n_interpolated"],
+        run.sample({"stream": "hourly_fit", "variant": r["variant"], "rows": r["nrows"], "interpolated": r["n_interpolated"],
                     "num_model_params": r["stored_p"], "cvrmse_adj": r["fields"]["cvrmse_adj"], "pnrmse_adj": r["fields"]["pnrmse_adj"],
                     "disqualified": r["dq"]}, limit=10)
-        small = {"seed": r["seed"], "variant": r["variant"], "ndays": r["ndays"]}
+        rc = {"stream": "hourly_fit", "job": [r["seed"], r["variant"]]}
         if r["stored_p"] != r["nparams"]:
             run.violation({"defect": "num_model_params is not the number of non-zero coefficients", "call": "HourlyModel.fit"},
                           "C16 HourlyModel.fit stored num_model_params=%d, regression has %d" % (r["stored_p"], r["nparams"]),
-                          case={"stream": "hourly_fit", "job": small}, generator="c16.hourly_fit_job")
-        fails, T = oracle_baseline(pairs, r["nparams"], r["fields"], k_mad)
-        for sig, msg in fails:
+                          case=rc, generator="c16.hourly_fit_job")
+        for sig, msg in r["fails"]:
             run.violation(dict(sig, call="HourlyModel.fit"), "C16 fitted HourlyModel.baseline_metrics vs predict(baseline) on measured rows: " + msg,
-                          case={"stream": "hourly_fit", "job": small}, observation=r["fields"], generator="c16.hourly_fit_job")
-        want_dq = not true_gate(T, r["tcv"], r["tpn"])
-        if want_dq != r["dq"]:
-            unsafe = [nm for nm, d_ in (("cvrmse_adj", T.mean_obs), ("pnrmse_adj", T.iqr_obs)) if d_ <= T.mn and r["fields"][nm] is not None]
-            run.violation({"defect": "poor-fit verdict differs from the statement", "call": "HourlyModel.fit",
-                           "cause": "ratio reported for a denominator that is not safely positive" if unsafe else "gate logic",
-                           "verdict": "disqualified" if r["dq"] else "acceptable"},
+                          case=rc, observation=r["fields"], generator="c16.hourly_fit_job")
+        if r["want_dq"] != r["dq"]:
+            run.violation(gate_sig(not r["dq"], r["unsafe"], "HourlyModel.fit"),
                           "C16 fitted HourlyModel: %s, cvrmse_adj=%r pnrmse_adj=%r" % ("disqualified" if r["dq"] else "not disqualified",
                                                                                       r["fields"]["cvrmse_adj"], r["fields"]["pnrmse_adj"]),
-                          case={"stream": "hourly_fit", "job": small}, observation=r["dq"], expected=want_dq, generator="c16.hourly_fit_job")
-        den, zrows = float_rows_term(r["rows"])
-        if den is None:
-            continue
-        term = ("{| hc_den := %d%%positive; hc_rows := %s; hc_p := %s; hc_mn := %s; hc_k := %s; hc_exp := %s |}" % (
-            den, coq_hrows([("nan" if o is None else o, "nan" if p is None else p, f) for o, p, f in zrows]), zlit(r["stored_p"]),
-            qlit(Fr(MN)), qlit(Fr(k_mad)), coq_list([obsv(r["fields"][f]) for f in FIELDS])))
-        hl.append((term, small, r["fields"]))
+                          case=rc, observation=r["dq"], expected=r["want_dq"], generator="c16.hourly_fit_job")
+        hl.append((r["term"], rc, r["fields"]))
     if hl:
         bad = run.coq_cases("hourly_fit", IMPORTS, "", [t[0] for t in hl], "check_hourly", shard=1, timeout=900)
         if bad is None:
             run.proof_ok = False
         else:
             for i in bad[:4]:
-                report_mismatch(run, "hourly_fit", None, hl[i][0], hl[i][1], hl[i][2])
+                report_mismatch(run, "hourly_fit", None, "", hl[i][1], hl[i][2])
     dl = []
     for r in dres:
         run.count(("dfit", r["seed"], r["variant"]))
         run.dist("daily_fit variant", r["variant"])
         run.dist("daily_fit verdict", "disqualified" if r["dq"] else "acceptable")
-        run.sample({"stream": "daily_fit", "variant": r["variant"], "error": r["error"], "disqualified": r["dq"], "n": len(r["resid"])}, limit=10)
-        K = max(Fr(v).denominator.bit_length() - 1 for v in r["resid"] + r["obs"])
-        den = 2 ** K
-        case = {"kind": "fit", "den": den, "resid": [int(Fr(v) * den) for v in r["resid"]], "obs": [int(Fr(v) * den) for v in r["obs"]],
-                "thr": r["thr"], "billing": False, "split": 0}
-        small = {"seed": r["seed"], "variant": r["variant"]}
-        if len(r["resid"]) != r["n_meter"]:
-            run.violation({"defect": "error metrics not over every measured day", "call": "DailyModel.fit"},
-                          "C16 DailyModel.error computed over %d residuals, the baseline has %d measured days" % (len(r["resid"]), r["n_meter"]),
-                          case={"stream": "daily_fit", "job": small}, generator="c16.daily_fit_job")
-        for sig, msg in oracle_daily(case, {"error": r["error"], "dq": r["dq"]}):
+        run.sample({"stream": "daily_fit", "variant": r["variant"], "error": r["error"], "disqualified": r["dq"], "n": r["n"]}, limit=10)
+        rc = {"stream": "daily_fit", "job": [r["seed"], r["variant"]]}
+        if r["n"] != r["n_meter"] or not r["obs_sorted_equal"]:
+            run.violation({"defect": "error metrics not over the measured days", "call": "DailyModel.fit"},
+                          "C16 DailyModel.error computed over %d residuals, the baseline has %d measured days (same observed values: %s)" % (
+                              r["n"], r["n_meter"], r["obs_sorted_equal"]), case=rc, generator="c16.daily_fit_job")
+        rm = r["error"]["RMSE"]
+        if not isinstance(rm, float) or abs(rm - r["rmse_pred"]) > 0.05 * max(rm, r["rmse_pred"]):
+            run.violation({"defect": "RMSE far from the RMSE of predict(baseline)", "call": "DailyModel.fit"},
+                          "C16 DailyModel.error RMSE=%r, RMSE of predict(baseline) on the measured days %r" % (rm, r["rmse_pred"]),
+                          case=rc, generator="c16.daily_fit_job")
+        for sig, msg in r["fails"]:
             run.violation(sig, "C16 fitted DailyModel.error vs the residuals of the chosen components: " + msg,
-                          case={"stream": "daily_fit", "job": small}, observation=r["error"], generator="c16.daily_fit_job")
-        e = r["error"]
-        term = ("{| dc_den := %d%%positive; dc_resid := %s; dc_obs := %s; dc_thr := %s; dc_exp := %s; dc_dq := %s |}" % (
-            den, coq_list([zlit(x) for x in case["resid"]]), coq_list([zlit(x) for x in case["obs"]]), qlit(Fr(r["thr"])),
-            coq_list([obsv(e[f]) for f in ("RMSE", "MAE", "CVRMSE", "PNRMSE")]), coq_bool(r["dq"])))
-        dl.append((term, small, r["error"]))
+                          case=rc, observation=r["error"], generator="c16.daily_fit_job")
+        dl.append((r["term"], rc, r["error"]))
     if dl:
-        bad = run.coq_cases("daily_fit", IMPORTS, "", [t[0] for t in dl], "check_daily", shard=4, timeout=900)
+        bad = run.coq_cases("daily_fit", IMPORTS, "", [t[0] for t in dl], "check_daily", shard=2, timeout=900)
         if bad is None:
             run.proof_ok = False
         else:
             for i in bad[:4]:
-                report_mismatch(run, "daily_fit", None, dl[i][0], dl[i][1], dl[i][2])
+                report_mismatch(run, "daily_fit", None, "", dl[i][1], dl[i][2])
 
 
 # ------------------------------------------------------------------ main
+
+SCALE = float(os.environ.get("C16_SCALE", "1"))      # development aid: shrink the generated volume
+
+
+def cnt(run, quick, thorough):
+    return max(8, int(run.n(quick, thorough) * SCALE))
+
+
+def phase(run, name):
+    t = os.times()
+    run.log("%s (cpu so far: %.0f s incl. children)" % (name, t[0] + t[1] + t[2] + t[3]))
+
 
 def main():
     run = Run("C16")
@@ -1166,25 +1257,37 @@ def main():
                                 "pandas / numpy semantics (isfinite filter, var(ddof=0), quantile 'linear', corr, autocorr) re-specified in Model/Metrics.v"]
     run.check_proofs("Properties/C16.v", ["Proofs/MetricsProofs.v"])
     run.ensure_models(["Model/MetricsRun.v", "Model/CasesLib.v"])
+    phase(run, "proofs checked")
     if run.replay:
         rep = json.load(open(run.replay))
         replay(run, rep["case"])
         run.finish()
     corpus = corpus_cases()
     stream_safe_divide(run)
-    run.log("safe_divide done")
-    cases = list(corpus.get("baseline", []))
-    nser = run.n(1500, 60000)
-    cases += [gen_series(run.rng, k) for k in range(nser)]
-    stream_baseline(run, cases)
-    run.log("baseline + gate done")
-    stream_hourly_stub(run, [gen_series(run.rng, k) for k in range(run.n(250, 6000))])
-    run.log("hourly stub done")
-    stream_daily_stub(run, [gen_daily(run.rng, k) for k in range(run.n(250, 6000))])
-    run.log("daily stub done")
-    stream_reporting(run, [gen_series(run.rng, k) for k in range(run.n(200, 5000))])
-    run.log("reporting done")
+    phase(run, "safe_divide done")
+    # data objects first, then the worker pool (workers inherit them)
+    hourly_data_object()
+    daily_data_object(False)
+    daily_data_object(True)
+    rng = run.rng
+
+    def series(n):
+        out = []
+        for k in range(n):
+            c = gen_series(rng, k)
+            c["seed"] = rng.randrange(2 ** 62)
+            out.append(c)
+        return out
+    stream_baseline(run, list(corpus.get("baseline", [])) + series(cnt(run, 1300, 60000)))
+    phase(run, "baseline + gate done")
+    stream_hourly_stub(run, list(corpus.get("hourly_stub", [])) + series(cnt(run, 220, 6000)))
+    phase(run, "hourly stub done")
+    stream_daily_stub(run, list(corpus.get("daily_stub", [])) + [gen_daily(rng, k) for k in range(cnt(run, 220, 6000))])
+    phase(run, "daily stub done")
+    stream_reporting(run, series(cnt(run, 200, 5000)))
+    phase(run, "reporting done")
     stream_fits(run)
+    phase(run, "fits done")
     run.finish()
 
 
@@ -1206,9 +1309,11 @@ def replay(run, c):
     elif s == "daily_stub":
         stream_daily_stub(run, [c["case"]])
     elif s == "reporting":
-        stream_reporting(run, [c["baseline"]])
-    else:
-        stream_fits(run)
+        stream_reporting(run, [c["case"]])
+    elif s == "hourly_fit":
+        stream_fits(run, hjobs=[tuple(c["job"])], djobs=[])
+    elif s == "daily_fit":
+        stream_fits(run, hjobs=[], djobs=[tuple(c["job"])])
 
 
 if __name__ == "__main__":
